@@ -225,4 +225,96 @@ def mapRanges : List MapRange := [
 /-- the member types whose lists `convertEnum` sorts (`total`: every list) -/
 def enumSort : List String := ["total"]
 
+/-- provenance of a VALUE stored into the document / handed to a callback -/
+inductive VOrigin
+  | fresh | doc | value | registryEntry | schema | other (s : String)
+deriving DecidableEq, Repr
+
+structure OptField where
+  name : String
+  typ : String
+  cls : String
+  reads : List String
+  writes : List String
+  calls : List String
+deriving DecidableEq, Repr
+
+structure CtxArg where
+  field : String
+  expr : String
+  origin : VOrigin
+  returned : Bool   -- the same variable is what the calling function returns
+deriving DecidableEq, Repr
+
+structure DocStore where
+  fn : String
+  field : String
+  rhs : String
+  origin : VOrigin
+deriving DecidableEq, Repr
+
+/-- every field of `type Options struct`, and the functions of to.go that read / write / call it -/
+def optionFields : List OptField := [
+  ⟨"Metadata", "*core.Registry[core.GlobalMeta]", "registry", ["applyMeta", "getID"], ["toJSONSchemaRegistry"], []⟩,
+  ⟨"Unrepresentable", "string", "value", ["doConvert"], [], []⟩,
+  ⟨"Cycles", "string", "value", ["convert"], [], []⟩,
+  ⟨"Reused", "string", "value", ["convert"], [], []⟩,
+  ⟨"URI", "func(id string) string", "callback", ["convert"], [], ["convert"]⟩,
+  ⟨"Target", "string", "value", [], [], []⟩,
+  ⟨"Override", "func(ctx OverrideContext)", "callback", ["convert"], [], ["convert"]⟩,
+  ⟨"IO", "string", "value", ["convertObjectFromShape", "doConvert"], [], []⟩
+]
+
+/-- what `c.opts.Override(OverrideContext{…})` is handed -/
+def overrideCall : List CtxArg := [
+  ⟨"ZodSchema", "schema", .schema, false⟩,
+  ⟨"JSONSchema", "placeholder", .fresh, true⟩
+]
+
+/-- what `c.opts.URI(…)` is handed -/
+def uriCall : List CtxArg := [
+  ⟨"arg0", "id", .value, false⟩
+]
+
+/-- every reference-typed value stored into the document, with the provenance of the value -/
+def docStores : List DocStore := [
+  ⟨"applyMeta", "Examples", "meta.Examples", .registryEntry⟩,
+  ⟨"convert", "Type", "nil", .value⟩,
+  ⟨"convertArray", "Type", "[]string{\"array\"}", .fresh⟩,
+  ⟨"convertEnum", "Enum", "enumValues", .fresh⟩,
+  ⟨"convertEnum", "Type", "[]string{\"number\"}", .fresh⟩,
+  ⟨"convertEnum", "Type", "[]string{\"string\"}", .fresh⟩,
+  ⟨"convertFile", "Type", "[]string{\"string\"}", .fresh⟩,
+  ⟨"convertFile", "Type", "[]string{\"string\"}", .fresh⟩,
+  ⟨"convertFile", "Type", "nil", .value⟩,
+  ⟨"convertLiteral", "Const", "&lib.ConstValue{Value: values[0], IsSet: true}", .fresh⟩,
+  ⟨"convertLiteral", "Enum", "values", .fresh⟩,
+  ⟨"convertLiteral", "Type", "[]string{\"boolean\"}", .fresh⟩,
+  ⟨"convertLiteral", "Type", "[]string{\"number\"}", .fresh⟩,
+  ⟨"convertLiteral", "Type", "[]string{\"string\"}", .fresh⟩,
+  ⟨"convertLiteral", "Value", "values[0]", .fresh⟩,
+  ⟨"convertMap", "Type", "[]string{\"object\"}", .fresh⟩,
+  ⟨"convertObjectFromShape", "Required", "required", .fresh⟩,
+  ⟨"convertObjectFromShape", "Type", "[]string{\"object\"}", .fresh⟩,
+  ⟨"convertRecord", "Type", "[]string{\"object\"}", .fresh⟩,
+  ⟨"convertRecord", "Type", "[]string{\"object\"}", .fresh⟩,
+  ⟨"convertTuple", "Type", "[]string{\"array\"}", .fresh⟩,
+  ⟨"doConvert", "Type", "[]string{\"boolean\"}", .fresh⟩,
+  ⟨"doConvert", "Type", "[]string{\"integer\"}", .fresh⟩,
+  ⟨"doConvert", "Type", "[]string{\"null\"}", .fresh⟩,
+  ⟨"doConvert", "Type", "[]string{\"number\"}", .fresh⟩,
+  ⟨"doConvert", "Type", "[]string{\"number\"}", .fresh⟩,
+  ⟨"doConvert", "Type", "[]string{\"number\"}", .fresh⟩,
+  ⟨"doConvert", "Type", "[]string{\"string\"}", .fresh⟩,
+  ⟨"doConvert", "Type", "[]string{\"string\"}", .fresh⟩,
+  ⟨"doConvert", "Type", "[]string{\"string\"}", .fresh⟩,
+  ⟨"doConvert", "Type", "[]string{\"string\"}", .fresh⟩,
+  ⟨"doConvert", "Type", "[]string{\"string\"}", .fresh⟩,
+  ⟨"doConvert", "Type", "[]string{\"string\"}", .fresh⟩,
+  ⟨"doConvert", "Type", "[]string{\"string\"}", .fresh⟩,
+  ⟨"doConvert", "Type", "[]string{\"string\"}", .fresh⟩,
+  ⟨"toJSONSchemaRegistry", "Defs", "make(map[string]*lib.Schema, len(c.defs))", .fresh⟩,
+  ⟨"toJSONSchemaSingle", "Defs", "make(map[string]*lib.Schema, len(c.defs))", .fresh⟩
+]
+
 end Gozod.Gen.ConvAccess
